@@ -695,6 +695,15 @@ _C19 = [
      'translator': 'py2lean_c19', 'ext': 'py2lean_c19', 'gen_file': 'jsonutils_jsonl',
      'c19': {'jsonl': {'iter_attr': '_line_iter', 'iter_param': 'line_iter', 'flags': {'ignore_errors': 'ignore_errors'},
                        'loads': 'json.loads', 'line_kind': 'bytes'}}},
+    # the same method on a TEXT-mode file: the lines are str (an item of β is a code point, [PyRtC19.Byte β] gives its value)
+    {'module': 'boltons.jsonutils', 'qualname': 'JSONLIterator.next', 'lean_name': 'JSONLIterator_next_text',
+     'params': {'line_iter': 'List (List β)', 'ignore_errors': 'Bool'},
+     'tparams': ['β', 'γ'], 'deceq': ['β'], 'inhabited': ['γ'], 'classes': ['PyRtC19.Byte β', 'PyRtC19.JsonLoads β γ'],
+     'kind': 'function', 'result': 'γ × List (List β)', 'raises': True, 'loop_fuel': True,
+     'tie_theorem': 'C19.src_jsonl_next_text_eq_model',
+     'translator': 'py2lean_c19', 'ext': 'py2lean_c19', 'gen_file': 'jsonutils_jsonl_text',
+     'c19': {'jsonl': {'iter_attr': '_line_iter', 'iter_param': 'line_iter', 'flags': {'ignore_errors': 'ignore_errors'},
+                       'loads': 'json.loads', 'line_kind': 'str'}}},
 ]
 SPECS['C19'] = _C19
 # boltons.setutils.IndexedSet (round 3d, C11): the tombstone / dead-interval bookkeeping, translated by
